@@ -685,6 +685,7 @@ def run(chk):
     from . import shapes
     shapes.tls_iff_https(chk, P, "C12.R4:tls-iff-https")
     shapes.response_read_to_end(chk, P, "C12.R5:response-read-to-end")
+    shapes.grpc_status_in_headers_too(chk, P, "C12.R5:grpc-status-in-headers")
     shapes.end_stream_iff_nothing_left(chk, P, "C12.R10:end-of-request-body")
     _call = lambda nm: (lambda o, b: o[0] == "call" and o[1].callee.get("name") == nm)
     shapes.returns_binop(chk, P, "C12.R10:content-length", "the declared content length of a request is its framing prefix plus its payload",
